@@ -43,7 +43,8 @@ def w1(model: Model, rep: Report):
                        "time_component = the drawn operation and an identifier derived from that same operation; channel bars / headers are placed at -index * spacing")
     T = model.cls("TransformConstructor")
     f = T.resolve("identifier_to_pivot")
-    ev = Evaluator(model, inline_methods=False)
+    # the class's own helper methods are seen through; everything outside the transform constructor stays a named atom
+    ev = Evaluator(model, inline_methods=True, opaque={x.qualname for x in model.all_functions() if x.cls is None or x.cls.name not in ("TransformConstructor", "ITransformConstructor")})
     v = ev.value_of(f, self_cls=T)
     s = sym(f.self_name)
     ident, tc = sym(f.param_names[1]), sym(f.param_names[2])
@@ -229,26 +230,64 @@ def w3(model: Model, rep: Report):
     ok = len(raises) == 1 and len(rets) == 1
     if ok:
         c = raises[0].cond
-        ok = c[0] == "not" and c[1][0] == "quant" and c[1][1] == "all" and c[1][2][0] == "comp"
-        if ok:
-            comp = c[1][2]
-            ok = len(comp[3]) == 1 and not comp[3][0][1] and comp[3][0][0] == req and comp[2][0] == "in" and comp[2][1][0] == "bound" and comp[2][2] == orig
+        lx = [e for e in raises[0].events if e.kind == "loopexit"]
+        if lx:
+            # guard loop: for item in requested: if item not in original: raise
+            lp = [e for e in raises[0].events if e.kind == "loop"][-1]
+            bound = ("bound", "for", lp.node.lineno, show(lp.term))
+            quiet = all(bp.exit in ("fall", "continue", "raise") and not [e for e in bp.events if e.kind in ("effect", "store", "aug")] for bp in lp.extra["paths"])
+            ok = c == TRUE and len(lx) == 1 and lp.term == req and lx[0].term == t_not(("in", bound, orig)) and quiet \
+                and len([bp for bp in lp.extra["paths"] if bp.exit == "raise"]) == 1
+        else:
+            ok = c[0] == "not" and c[1][0] == "quant" and c[1][1] == "all" and c[1][2][0] == "comp"
+            if ok:
+                comp = c[1][2]
+                ok = len(comp[3]) == 1 and not comp[3][0][1] and comp[3][0][0] == req and comp[2][0] == "in" and comp[2][1][0] == "bound" and comp[2][2] == orig
     rep.check(ok, "C18.W3", "reorder_indices[rejects unknown]", f.loc, found=[show(p.cond) for p in raises], required="raise iff not all(item in original_order for item in specific_order)",
               what="an unknown channel in the requested order is not rejected (or a valid order is)", detail="reject")
-    ok = False
-    if rets:
-        v = rets[0].value
-        src = v[3] if v is not None and v[0] == "var" else v
-        if src is not None and src[0] == "lin":
-            parts = {(a[3] if a[0] == "var" else a): c for a, c in src[1]}
-            comp = [a for a in parts if a[0] == "comp"]
-            ok = parts.get(req) == 1 and len(comp) == 1 and len(parts) == 2 and comp[0][1] == "list" and comp[0][3][0][0] == orig and comp[0][2][0] == "bound" and list(comp[0][3][0][1]) == [t_not(("in", comp[0][2], req))]
-            ok = ok and _concat_left_is(f, f.param_names[1])
+    ok = bool(rets) and _prioritised(model, f, rets[0], orig, req, 0)
     rep.check(ok, "C18.W3", "reorder_indices[result]", f.loc, found=show(rets[0].value) if rets else None, required="specific_order + [item for item in original_order if item not in specific_order]",
               what="rows are not 'requested channels first, then the remaining ones in their original order'", detail="result")
 
 
+def _prioritised(model: Model, fn: FunctionInfo, path: Path, orig: Term, req: Term, depth: int) -> bool:
+    """The value returned on ``path`` of ``fn`` is  req ++ [x for x in orig if x not in req]  (directly, through a local accumulator, or through a
+    module-level helper that is handed exactly (orig, req))."""
+    from ..listflow import as_single_comp
+    v = path.value
+    if v is None:
+        return False
+    while v[0] == "var" and v[3][0] not in ("list", "comp"):
+        v = v[3]
+    if v[0] == "call" and isinstance(v[1], tuple) and v[1][0] == "fn" and depth < 2:
+        try:
+            g = model.function(v[1][1].rsplit(".", 1)[0], v[1][1].rsplit(".", 1)[1])
+        except AnalysisError:
+            return False
+        names = g.param_names
+        given = dict(zip(names, v[2]))
+        given.update(dict(v[3]))
+        inv = {val: k for k, val in given.items()}
+        if set(given) != set(names[:2]) or orig not in inv or req not in inv:
+            return False
+        ps = [q for q in PathEnumerator(Evaluator(model, inline_methods=False)).function_paths(g) if q.exit != "raise"]
+        return len(ps) == 1 and ps[0].exit == "return" and _prioritised(model, g, ps[0], sym(inv[orig]), sym(inv[req]), depth + 1)
+    if v[0] == "var":
+        v = v[3]
+    if v[0] != "lin" or v[2] != 0:
+        return False
+    parts = [(as_single_comp(path, a), c) for a, c in v[1]]
+    comp = [a for a, c in parts if a[0] == "comp"]
+    ok = len(parts) == 2 and all(c == 1 for _, c in parts) and any(a == req for a, _ in parts) and len(comp) == 1
+    if not ok:
+        return False
+    cp = comp[0]
+    ok = cp[1] == "list" and len(cp[3]) == 1 and cp[3][0][0] == orig and cp[2][0] == "bound" and list(cp[3][0][1]) == [t_not(("in", cp[2], req))]
+    return ok and _concat_left_is(fn, req[1])
+
+
 def _concat_left_is(fn: FunctionInfo, name: str) -> bool:
+    """list concatenation is kept as a commutative sum in the term language: the order of the operands is read off the syntax"""
     for n in ast.walk(fn.node):
         if isinstance(n, ast.BinOp) and isinstance(n.op, ast.Add) and isinstance(n.right, (ast.ListComp, ast.Name)):
             return isinstance(n.left, ast.Name) and n.left.id == name
@@ -276,7 +315,7 @@ def w4(model: Model, rep: Report):
             if ok_o:
                 it = dict(src[3]).get("iterable")
                 ok_o = it is not None and it[0] == "comp" and it[3][0][0] == ("attr", circuit, "occupied_qubit_channels") and not it[3][0][1] and it[2][0] == "attr" and it[2][2] in ("id", "_id")
-            ok_sp = sp == order or (sp is not None and sp[0] == "var" and sp[3] == ("list", ()))
+            ok_sp = sp is not None and _default_when_none(ev, p.cond, sp, order, lambda t: t == ("list", ()) or t == ("tuple", ()))
             ok_rows = ok_o and ok_sp
         rep.check(ok_rows, "C18.W4", "construct_visual_description[rows]", f.loc, found=show(rows) if rows else None, required="reorder_indices(unique occupied channel ids, requested order)", what="rows are not the occupied channels in the requested order", detail="rows")
         lm = d.get("channel_label_map")
@@ -285,6 +324,8 @@ def w4(model: Model, rep: Report):
         if ok_lm:
             b = subterms(src[1], lambda y: y[0] == "bound")
             ok_lm = len(b) == 1 and src[1] == ("item", b[0], 0) and is_call_of(src[2], "get") and list(src[2][2]) == [("item", b[0], 1), ("item", b[0], 1)]
+            # the table that is asked: the caller's map; when none was given, one whose .get(c, c) is c (empty, or identity over the channels)
+            ok_lm = ok_lm and _default_when_none(ev, p.cond, src[2][1][1], cmap, _answers_identity)
         rep.check(ok_lm, "C18.W4", "construct_visual_description[label map keyed by row]", f.loc, found=show(lm) if lm else None, required="{row: custom_map.get(channel, channel) for row, channel in enumerate(rows)}",
                   what="labels are keyed by something else than the row they are read with", detail="label-writer")
         stt = d.get("channel_states")
@@ -312,6 +353,38 @@ def w4(model: Model, rep: Report):
             ok = ok and sd is not None and subterms(sd, lambda y: y == ("sub", ("attr", s, "channel_states"), idx))
         rep.check(ok, "C18.W4", f"VisualCircuitDescription.get_channel_header[{case}]", h.loc, found=[show(dict(p.value[2]).get("channel_name")) for p in hit] if hit else [show(p.cond) for p in ps],
                   required="label_map[row] when the ROW is labelled, else '# <channel of the row>'; state of the row", what="the header of a row shows another row's label", detail=f"label-reader:{case}")
+
+
+def _answers_identity(t: Term) -> bool:
+    """a table T with T.get(c, c) == c for every c: the empty dict or an identity comprehension"""
+    if t == ("dict", ()):
+        return True
+    if t[0] == "dictcomp":
+        return t[1] == t[2] and t[1][0] == "bound"
+    return False
+
+
+def _default_when_none(ev: Evaluator, cond: Term, value: Term, param: Term, is_default) -> bool:
+    """``value`` is ``param`` whenever param is not None and a default (per ``is_default``) whenever it is None; decided per alternative of a
+    conditional value under the path condition."""
+    from .c01 import _alternatives, _implies
+    from ..sym import t_cmp
+    none = t_cmp("is", param, NONE)
+    while value[0] == "var":
+        value = value[3]
+    for alt, c in _alternatives(value, cond):
+        while alt[0] == "var":
+            alt = alt[3]
+        if alt == param:
+            # using the caller's value is right exactly where it is known not to be None (a None would be passed on)
+            if not _implies(ev, c, t_not(none)):
+                return False
+        elif is_default(alt):
+            if not _implies(ev, c, none):
+                return False
+        else:
+            return False
+    return True
 
 
 # ---------------------------------------------------------------------------------------------
